@@ -175,8 +175,12 @@ Section PBuild.
         let regraph := match new with
                        | [] => Some (pb_edges b, pb_desel b)
                        (* a task deselected by -k/-m carries a skip marker; the marker stays on it when the
-                          graph is re-created, also if a new task that is selected depends on it *)
-                       | _ => match pdag c ts' with DagOk E d => Some (E, pb_desel b ++ d) | DagErr => None end
+                          graph is re-created, also if a new task that is selected depends on it
+                          (... on the task OBJECT: a task that the generator creates anew - another generator had
+                          created it before - is a new object without markers) *)
+                       | _ => match pdag c ts' with
+                              | DagOk E d => Some (E, filter (fun j => negb (memN j (map (fun k => tid (base k)) (p_children r)))) (pb_desel b) ++ d)
+                              | DagErr => None end
                        end in
         match regraph with
         | None =>
